@@ -16,6 +16,8 @@ thread_local! {
     static CLONE_PANIC_AT: Cell<usize> = const { Cell::new(0) };
     static CLONE_CALLS: Cell<usize> = const { Cell::new(0) };
     static CMP_PANIC_AT: Cell<usize> = const { Cell::new(0) };
+    static DROP_PANIC_AT: Cell<usize> = const { Cell::new(0) };
+    static DROP_CALLS: Cell<usize> = const { Cell::new(0) };
     static CMP_CALLS: Cell<usize> = const { Cell::new(0) };
 }
 
@@ -30,6 +32,14 @@ pub fn reset() {
     CLONE_CALLS.with(|c| c.set(0));
     CMP_PANIC_AT.with(|c| c.set(0));
     CMP_CALLS.with(|c| c.set(0));
+    DROP_PANIC_AT.with(|c| c.set(0));
+    DROP_CALLS.with(|c| c.set(0));
+}
+/// Arm a panic inside the k-th payload destructor from now (0 disarms). The destructor has
+/// already logged itself and marked the value destroyed when it panics.
+pub fn arm_drop_panic(k: usize) {
+    DROP_CALLS.with(|c| c.set(0));
+    DROP_PANIC_AT.with(|c| c.set(k));
 }
 pub fn next_id_peek() -> u32 {
     NEXT_ID.with(|c| c.get())
@@ -163,6 +173,16 @@ impl<const TAG: u8> Drop for Tracked<TAG> {
         }
         suspend(|| DROPS.with(|d| d.borrow_mut().push((TAG, pk.id))));
         unsafe { std::ptr::write_volatile(&mut self.magic, DEAD) };
+        let at = DROP_PANIC_AT.with(|c| c.get());
+        if at != 0 {
+            let n = DROP_CALLS.with(|c| {
+                c.set(c.get() + 1);
+                c.get()
+            });
+            if n == at && !std::thread::panicking() {
+                suspend(|| panic!("vrt: armed destructor panic"));
+            }
+        }
     }
 }
 
